@@ -40,6 +40,12 @@ func verifyFunction(P *Program, key string) (res *FuncResult) {
 		return
 	}
 	ctr := P.cs.byKey[key]
+	if ctr != nil {
+		if b := ctr.brokenClause(); b != nil {
+			res.Err = fmt.Sprintf("contract clause %s (%s) no longer type-checks against the code: %s", clauseName(b), b.Src, b.Broken)
+			return
+		}
+	}
 	bv := ctr != nil && ctr.Mode == "bv"
 	x := newExec(P, bv)
 	x.root = fn
